@@ -19,7 +19,7 @@ Pm(n, t, d) == [n |-> n, t |-> t, req |-> FALSE, d |-> d]
 Rq(n, t) == [n |-> n, t |-> t, req |-> TRUE, d |-> NoVal]
 Cl(parent, abs, kw, params) == [parent |-> parent, abs |-> abs, kw |-> kw, params |-> params]
 
-ClassNames == {"Base", "Sub1", "Sub2", "Sub3", "SubKw", "SubKw2", "Other", "Abs", "Conc", "Outer", "OuterOpt", "OuterList", "OuterDict", "OuterUnion"}
+ClassNames == {"Base", "Sub1", "Sub2", "Sub3", "SubKw", "SubKw2", "Other", "Abs", "Conc", "Outer", "OuterOpt", "OuterList", "OuterDict", "OuterUnion", "Outer2"}
 Fam == [cls |-> [c \in ClassNames |->
           CASE c = "Base"   -> Cl("", FALSE, FALSE, <<Pm("a", TInt, VInt(1))>>)
             [] c = "Sub1"   -> Cl("Base", FALSE, FALSE, <<Pm("a", TInt, VInt(2)), Pm("b", TStr, VStr("s"))>>)        \* adds b
@@ -34,7 +34,8 @@ Fam == [cls |-> [c \in ClassNames |->
             [] c = "OuterOpt"   -> Cl("", FALSE, FALSE, <<Pm("inner", TOpt("Base"), VNull)>>)
             [] c = "OuterList"  -> Cl("", FALSE, FALSE, <<Rq("inners", TList("Base"))>>)
             [] c = "OuterDict"  -> Cl("", FALSE, FALSE, <<Rq("inners", TDict("Base"))>>)
-            [] c = "OuterUnion" -> Cl("", FALSE, FALSE, <<Rq("inner", TUnion("Base", "Other"))>>)],
+            [] c = "OuterUnion" -> Cl("", FALSE, FALSE, <<Rq("inner", TUnion("Base", "Other"))>>)
+            [] c = "Outer2" -> Cl("", FALSE, FALSE, <<Rq("p", TCls("Base")), Rq("p2", TCls("Base"))>>)],      \* two class-typed parameters, p a string prefix of p2
         fn |-> [f \in {"make_base", "make_other"} |->
                   IF f = "make_base" THEN [ret |-> "Base", params |-> <<Pm("a", TInt, VInt(7))>>]
                   ELSE [ret |-> "Other", params |-> <<Pm("a", TInt, VInt(8))>>]],
@@ -112,8 +113,22 @@ ItemsSubKw == <<
   W(CPK(Bare("SubKw2"), D1("m", VInt(5)))), Dt(<<"b">>, VStr("w")), W(CPK(Bare("SubKw"), D1("b", VStr("q")))),
   W(D3("class_path", Bare("SubKw"), "init_args", D1("a", VInt(5)), "dict_kwargs", D1("a", VInt(6))))               \* a dict_kwargs entry that names a parameter wins
 >>
-Decl == <<"Base", "Outer", "OuterOpt", "OuterList", "OuterDict", "OuterUnion", "Abs", "SubKw">>
-Vocab(t) == CASE t = "Base" -> ItemsBase [] t = "Outer" -> ItemsOuter [] t = "OuterOpt" -> ItemsOuterOpt [] t = "OuterList" -> ItemsOuterList
+\* two class-typed parameters of one class (the name of the first is a prefix of the second's): class changes on either, through
+\* config sources (merge_config), whole values and dotted options
+PK(v) == CPI(Bare("Sub1"), D1("b", VStr(v)))
+ItemsOuter2 == <<
+  C(CPI(Bare("Outer2"), D2("p", PK("k"), "p2", PK("k")))),                                                   \* 1 both Sub1(b=k)
+  C(D1("init_args", D2("p", Bare("Sub1"), "p2", InnerSub2))),                                                \* 2 p stays Sub1, p2 -> Sub2 (lacks b)
+  C(CPI(Path("Outer2"), D2("p", CPI(Bare("Sub1"), D1("a", VInt(5))), "p2", CPI(Bare("Sub2"), D1("c", VInt(2)))))),   \* 3
+  W(D2("p", PK("w"), "p2", PK("w"))),                                                                        \* 4 parameters only
+  W(D2("p", Bare("Sub1"), "p2", Bare("Sub3"))),                                                              \* 5 p2 -> Sub3 (re-typed a)
+  Dt(<<"p2">>, InnerSub2), Dt(<<"p2", "b">>, VStr("z")), Dt(<<"p">>, Bare("Sub2")),                           \* 6-8
+  W(D2("p", InnerSub2, "p2", CPI(Bare("Sub1"), D1("a", VInt(7))))),                                          \* 9 p -> Sub2, p2 -> Sub1
+  C(D1("init_args", D2("p", CPI(Bare("Sub1"), D1("a", VInt(6))), "p2", Bare("Base")))),                      \* 10 p2 -> Base (lacks b)
+  C(D1("init_args", D1("p2", InnerSub2))), W(Bare("Outer2"))                                                 \* 11 only p2 given; 12
+>>
+Decl == <<"Base", "Outer", "OuterOpt", "OuterList", "OuterDict", "OuterUnion", "Abs", "SubKw", "Outer2">>
+Vocab(t) == CASE t = "Outer2" -> ItemsOuter2 [] t = "Base" -> ItemsBase [] t = "Outer" -> ItemsOuter [] t = "OuterOpt" -> ItemsOuterOpt [] t = "OuterList" -> ItemsOuterList
               [] t = "OuterDict" -> ItemsOuterDict [] t = "OuterUnion" -> ItemsOuterUnion [] t = "Abs" -> ItemsAbs [] t = "SubKw" -> ItemsSubKw
 
 \* sequences of three sources are built from the core of the two large vocabularies (all items of the small ones)
